@@ -174,6 +174,9 @@ func makeFaultProgram(c *vf.Ctx, seed int64, cfg *pgen.Config, vdr string, tweak
 		} else {
 			p = pgen.Generate(s, cfg)
 		}
+		if attempt%2 == 0 {
+			injectNumericArgs(p, cfg)
+		}
 		dir := filepath.Join(c.WorkDir, fmt.Sprintf("base-%d", s))
 		if _, _, err := compileProgram(p, filepath.Join(dir, "compile")); err != nil {
 			os.RemoveAll(dir)
@@ -234,6 +237,31 @@ func makeFaultProgram(c *vf.Ctx, seed int64, cfg *pgen.Config, vdr string, tweak
 		return fp
 	}
 	return nil
+}
+
+// injectNumericArgs gives the top-level pipeline two more inputs, bound in the
+// invocation to a negative non-integral float and a large negative integer,
+// and a stage consuming them next to a negative float literal of its own: a
+// restart has to recognise the invocation it is given as the one on record.
+func injectNumericArgs(p *pgen.Program, cfg *pgen.Config) {
+	top := p.Pipeline(p.Top.Callee)
+	if top == nil || p.Top.Map || p.Stage("ZZNUM") != nil {
+		return
+	}
+	st := &pgen.Stage{Name: "ZZNUM", Ins: []pgen.Param{{Name: "v", Type: pgen.TFloat}, {Name: "w", Type: pgen.TFloat}, {Name: "k", Type: pgen.TInt}},
+		Outs: []pgen.Param{{Name: "n", Type: pgen.TInt}}}
+	st.SrcLang, st.Src = cfg.SrcFor(st.Name)
+	if st.SrcLang != "comp" {
+		return
+	}
+	p.Stages = append(p.Stages, st)
+	top.Ins = append(top.Ins, pgen.Param{Name: "zzneg", Type: pgen.TFloat}, pgen.Param{Name: "zzbig", Type: pgen.TInt})
+	top.Calls = append(top.Calls, &pgen.Call{Callee: "ZZNUM", Binds: []pgen.Binding{
+		{Id: "v", Exp: &pgen.Exp{Kind: pgen.ERefSelf, Id: "zzneg"}},
+		{Id: "w", Exp: &pgen.Exp{Kind: pgen.EFloat, F: -0.0015}},
+		{Id: "k", Exp: &pgen.Exp{Kind: pgen.ERefSelf, Id: "zzbig"}}}})
+	p.Top.Binds = append(p.Top.Binds, pgen.Binding{Id: "zzneg", Exp: &pgen.Exp{Kind: pgen.EFloat, F: -0.625}},
+		pgen.Binding{Id: "zzbig", Exp: &pgen.Exp{Kind: pgen.EInt, I: -9007199254740993}})
 }
 
 type crashSpec struct {
